@@ -246,8 +246,17 @@ theorem step_arrayTable_next {s : St} {K' : List Name} {base : Path} {i : Nat}
       simp only [Bool.not_eq_true', strictPrefix_false_iff, mkArr]
       exact SExt_irrefl _
     rw [h1, if_pos h2]
+  have hfa2 : findArray (pre ++ mkArr K' base i ::
+      post.filter (fun a => !strictPrefix (keyPath K') a.rkey)) (keyPath K') = some pre.length := by
+    rw [findArray]
+    apply findIdx_append_cons
+    · intro b hb
+      have := hpre b hb
+      simp only [beq_eq_false_iff_ne, ne_eq]
+      exact fun e => this (e ▸ List.prefix_refl _)
+    · simp [mkArr]
   simp only [step, hsn, findArrayPrefix, hfa]
-  simp only [harr, hfilt]
+  simp only [harr, hfilt, hfa2]
   simp [mkArr]
 
 end CueVerif.Toml.Round
